@@ -263,3 +263,25 @@ Lemma table_row_mono (table : list (Z * bool * (Q * Q * Q))) : forallb mono_ok t
 Proof.
   intros Hall row d1 d2 Hin. apply mono_ok_row. exact (proj1 (forallb_forall mono_ok table) Hall row Hin).
 Qed.
+
+(* ... but it is monotone on each side of the heuristic: for inputs both above 1 (read as degC/km) or both at most 1
+   (read as degC/m) a larger input gradient gives a larger (or equal) normalised gradient *)
+Lemma Qltb_false a b : Qltb a b = false -> b <= a.
+Proof. intros H. destruct (Qlt_le_dec a b) as [Hlt|Hge]; [apply Qltb_true in Hlt; congruence | assumption]. Qed.
+
+Lemma norm_gradient_mono_same_side g g' : g <= g' -> (1 < g \/ g' <= 1) -> norm_gradient g <= norm_gradient g'.
+Proof.
+  intros Hle Hside. unfold norm_gradient, tiny_gradient. cbv zeta.
+  destruct Hside as [H1 | H1].
+  - assert (E1 : Qltb 1 g = true) by (apply Qltb_true; assumption).
+    assert (E2 : Qltb 1 g' = true) by (apply Qltb_true; lra).
+    rewrite E1, E2.
+    assert (Hd : g / 1000 <= g' / 1000) by (unfold Qdiv; apply Qmult_le_compat_r; [assumption | discriminate]).
+    destruct (Qltb (g / 1000) (1 # 1000000)) eqn:A; destruct (Qltb (g' / 1000) (1 # 1000000)) eqn:B;
+      try (apply Qltb_true in A); try (apply Qltb_true in B); try (apply Qltb_false in A); try (apply Qltb_false in B); lra.
+  - assert (E1 : Qltb 1 g = false) by (destruct (Qltb 1 g) eqn:A; [apply Qltb_true in A; lra | reflexivity]).
+    assert (E2 : Qltb 1 g' = false) by (destruct (Qltb 1 g') eqn:A; [apply Qltb_true in A; lra | reflexivity]).
+    rewrite E1, E2.
+    destruct (Qltb g (1 # 1000000)) eqn:A; destruct (Qltb g' (1 # 1000000)) eqn:B;
+      try (apply Qltb_true in A); try (apply Qltb_true in B); try (apply Qltb_false in A); try (apply Qltb_false in B); lra.
+Qed.
